@@ -13,6 +13,7 @@ mod prng;
 mod props;
 mod runner;
 mod scenario;
+mod snapfmt;
 mod worlda;
 
 use runner::{Options, Tier, DEFAULT_SEED};
